@@ -17,11 +17,24 @@ if ! (cd "$ROOT/fuzz" && cargo +nightly fuzz build --fuzz-dir . "$target" >"$wor
   status="inconclusive: cargo fuzz build failed (see $work/build.log)"
 else
   maxlen=256; case "$target" in parse) maxlen=420;; roundtrip) maxlen=300;; esac
-  ( cd "$work/logs" && timeout 3000 cargo +nightly fuzz run --fuzz-dir "$ROOT/fuzz" "$target" "$work/corpus" -- \
-      -runs="$runs" -seed="$lfseed" -max_len="$maxlen" -len_control=0 -jobs="$jobs" -workers="$jobs" \
-      -artifact_prefix="$work/artifacts/" -print_final_stats=1 -timeout=20 -rss_limit_mb=4096 >"$work/run.log" 2>&1 )
-  rc=$?
-  [ $rc -eq 124 ] && status="inconclusive: campaign hit the wall-clock guard"
+  bin=$(ls "$ROOT"/fuzz/target/*/release/"$target" 2>/dev/null | head -1)
+  if [ -z "$bin" ]; then
+    status="inconclusive: fuzz binary not found after build"
+  else
+    # independent deterministic jobs: job j uses seed S+j and its own copy of the seed corpus
+    pids=""
+    for j in $(seq 1 "$jobs"); do
+      mkdir -p "$work/corpus-$j"; cp "$work/corpus/"* "$work/corpus-$j/" 2>/dev/null
+      ( cd "$work/logs" && timeout 3000 "$bin" "$work/corpus-$j" -runs="$runs" -seed=$((lfseed + j)) -max_len="$maxlen" -len_control=0 \
+          -artifact_prefix="$work/artifacts/j$j-" -print_final_stats=1 -timeout=20 -rss_limit_mb=4096 >"$work/logs/fuzz-$j.log" 2>&1; echo $? >"$work/logs/rc-$j" ) &
+      pids="$pids $!"
+    done
+    wait $pids
+    for j in $(seq 1 "$jobs"); do
+      rc=$(cat "$work/logs/rc-$j" 2>/dev/null || echo 1)
+      [ "$rc" = 124 ] && status="inconclusive: a fuzz job hit the wall-clock guard"
+    done
+  fi
   execs=$(grep -h "stat::number_of_executed_units" "$work"/logs/fuzz-*.log 2>/dev/null | awk '{s+=$2} END{print s+0}')
   cov=$(grep -ho "cov: [0-9]*" "$work"/logs/fuzz-*.log 2>/dev/null | awk '{if($2>m)m=$2} END{print m+0}')
   for a in "$work"/artifacts/*; do
